@@ -15,6 +15,9 @@
 (*  {"e":"Encode","bytes":[...],"fr":FR}                                                 *)
 (*  {"e":"Decode","key":"same|other|none","kv":..,"ok":B,"d":MSG,"re":B,"fr":FR}        *)
 (*  {"e":"FlipAll","key":"same","n":N,"nacc":A,"acc":[{"pos":P,"bit":B,"fr":FR},...]}   *)
+(*  {"e":"ReuseBuffer"} {"e":"FreeBuffer"}  the heap buffer the last Decode(same) read from was       *)
+(*                      overwritten in place with other bytes / destroyed                              *)
+(*  {"e":"Observe","d":MSG,"re":B}          the decoded message read back afterwards                   *)
 (*  {"e":"Reset","case":ID,"kind":"helper"} {"e":"Hmac","kl":L,"tl":T,"out":[20],"ref":[20]} *)
 (*  {"e":"Crc","tl":T,"out":[4],"ref":[4]}                                               *)
 (*  {"e":"Reset","case":ID,"kind":"fuzz"} {"e":"Fuzz","n":N,"nacc":A,"acc":[{"bytes":[..],"klen":L,"fr":FR}]} *)
@@ -42,6 +45,7 @@ Stats0 == [flips |-> 0, flipacc |-> 0, fliplogged |-> 0, fuzz |-> 0, fuzzacc |->
 
 TInit ==
     /\ c = Helper /\ w = NoWire /\ st = "new" /\ q = NoQ /\ res = NoRes /\ hist = <<>>
+    /\ rb = "none" /\ held = <<>> /\ obs = NoObs
     /\ l = 1 /\ cid = "" /\ cur = Cur0 /\ viol = {} /\ ndiv = 0 /\ divs = <<>> /\ dflag = FALSE /\ ncases = 0
     /\ annot = {} /\ stats = Stats0 /\ nviol = 0
 
@@ -87,6 +91,7 @@ AddViol(S) ==
 ResetStep(ev) ==
     /\ cid' = ev.case /\ ncases' = ncases + 1 /\ dflag' = FALSE
     /\ st' = "new" /\ w' = NoWire /\ q' = NoQ /\ res' = NoRes /\ hist' = <<>>
+    /\ rb' = "none" /\ held' = <<>> /\ obs' = NoObs
     /\ IF ev.kind = "case"
        THEN /\ c' = [sub |-> {ev.sub[i] : i \in 1..Len(ev.sub)}, v |-> ev.v, klen |-> ev.klen, fp |-> ev.fp, helper |-> FALSE]
             /\ cur' = [kind |-> "case", m |-> ev.m, klen |-> ev.klen, fp |-> ev.fp, bytes |-> <<>>]
@@ -172,15 +177,32 @@ FlipAllStep(ev) ==
                [what |-> "flips", model |-> <<8 * Len(bs), 0>>, impl |-> <<ev.n, illframed>>])
     /\ UNCHANGED <<cid, ncases, cur>>
 
+\* the receive buffer the held message was decoded from is refilled in place / destroyed (no observation)
+BufferStep(ev) ==
+    /\ \/ ev.e = "ReuseBuffer" /\ ReuseBuffer
+       \/ ev.e = "FreeBuffer" /\ FreeBuffer
+       \/ ~(IF ev.e = "ReuseBuffer" THEN ENABLED ReuseBuffer ELSE ENABLED FreeBuffer) /\ UNCHANGED vars
+    /\ NoDiverge
+    /\ UNCHANGED <<cid, ncases, cur, viol, nviol, annot, stats>>
+
+\* the holder reads the decoded message back: {"e":"Observe","d":MSG,"re":B}
+ObserveStep(ev) ==
+    /\ \/ Observe
+       \/ (~ENABLED Observe) /\ UNCHANGED vars
+    /\ AddViol(IF P_Stable(ev.d, cur.m) THEN {}
+               ELSE {[case |-> cid, line |-> l, prop |-> "ValueStable", e |-> "Observe-" \o rb, pos |-> 0, bit |-> 0]})
+    /\ Diverge(obs' # ev.d \/ ~ev.re, [what |-> "observe", model |-> <<rb>>, impl |-> <<ev.re>>])
+    /\ UNCHANGED <<cid, ncases, cur, annot, stats>>
+
 HelperStep(ev) ==
     /\ \/ ev.e = "Hmac" /\ ~IsCase /\ st \in {"new", "done"} /\ st' = "done"
           /\ q' = [a |-> "Hmac", kl |-> ev.kl, tl |-> ev.tl]
           /\ res' = [dec |-> [ok |-> "term", f |-> "hmac-sha1", kl |-> ev.kl, tl |-> ev.tl], fr |-> NoFrame]
-          /\ UNCHANGED <<c, w, hist>>
+          /\ UNCHANGED <<c, w, hist, rb, held, obs>>
        \/ ev.e = "Crc" /\ ~IsCase /\ st \in {"new", "done"} /\ st' = "done"
           /\ q' = [a |-> "Crc", tl |-> ev.tl]
           /\ res' = [dec |-> [ok |-> "term", f |-> "crc32", kl |-> 0, tl |-> ev.tl], fr |-> NoFrame]
-          /\ UNCHANGED <<c, w, hist>>
+          /\ UNCHANGED <<c, w, hist, rb, held, obs>>
        \/ IsCase /\ UNCHANGED vars
     \* the helper's output is the reference interpretation of the term
     /\ AddViol(IF ev.out = ev.ref THEN {}
@@ -213,6 +235,8 @@ TNext ==
           [] ev.e = "Encode"  -> EncodeStep(ev)
           [] ev.e = "Decode"  -> DecodeStep(ev)
           [] ev.e = "FlipAll" -> FlipAllStep(ev)
+          [] ev.e \in {"ReuseBuffer", "FreeBuffer"} -> BufferStep(ev)
+          [] ev.e = "Observe" -> ObserveStep(ev)
           [] ev.e \in {"Hmac", "Crc"} -> HelperStep(ev)
           [] ev.e = "Fuzz"    -> FuzzStep(ev)
           [] OTHER            -> OtherStep
